@@ -242,7 +242,7 @@ Definition relax_body_v0 : stmt :=
        (SIf (CNotNone 1)
             (SSeq (SIf (CNotNone 0)
                        (SSeq (SIf (CLt (EMul (ENum 2) (EVar 0)) (EVar 1)) SRaise SSkip)
-                             (SAssign 2 (EDiv (ENum 1) (ESub (EDiv (ENum 1) (EVar 1)) (EDiv (EDiv (ENum 1) (ENum 2)) (EVar 0))))))
+                             (SAssign 2 (EDiv (ENum 1) (ESub (EDiv (ENum 1) (EVar 1)) (EDiv (ENum (1 # 2)) (EVar 0))))))
                        (SAssign 2 (EVar 1)))
                   (SEmit (EMul (EDiv (ENum 1) (ESqrt (EMul (ENum 2) (EVar 2)))) (ENum 2)) KNum))
             SSkip).
